@@ -844,8 +844,8 @@ def t_model_writer(eng):
             value = option_value(rest[names.index(opt)])[1]
             f = eng.get_fnode('main')
             o = opt[2:]
-            idx = [k for k, st in enumerate(f.body) if isinstance(st, ast.Assign) and ast.unparse(st.targets[0]) == 'p'
-                   and ('args.%s.split' % o) in ast.unparse(st.value)]
+            idx = [k for k, st in enumerate(f.body) if isinstance(st, ast.Assign)
+                   and ('args.%s.split' % o) in ast.unparse(st.value).replace(' ', '')]
             stmts = []
             for st in f.body[idx[0]:]:
                 stmts.append(st)
